@@ -281,6 +281,10 @@ impl LoggedWeak {
 
 pub struct EndMarker(pub Cell<Oid>);
 
+/// Over-aligned on purpose: the value then does not start right after the
+/// header of the allocation, which is the non-trivial case for everything that
+/// converts between value pointers and allocation pointers (raw round trips).
+#[repr(align(64))]
 pub struct Node {
     pub id: Cell<Oid>,
     pub canary: Cell<u64>,
@@ -342,11 +346,14 @@ impl Clone for Node {
             wd.model.borrow_mut().objs[new_id as usize].wslots.push(s.target);
         }
         wd.makemut_new.set(new_id);
-        if let Some((ri, old)) = wd.makemut.get() {
+        if let Some((_ri, old)) = wd.makemut.get() {
             // make_mut is about to overwrite (and thereby drop) the caller's
-            // handle to the old object: open the bracket for that drop now,
-            // with the clone's handles already counted
-            wd.model.borrow_mut().roots[ri] = new_id;
+            // handle to the old object: the in-flight handle (last raw entry of
+            // the model) now stands for the clone; open the bracket for the drop
+            // of the old handle now, with the clone's handles already counted
+            if let Some(last) = wd.model.borrow_mut().raws.last_mut() {
+                *last = new_id;
+            }
             on_hdrop_begin(old);
         }
         n
